@@ -33,7 +33,7 @@ func runC02(c *mon.Ctx) {
 		inside bool
 	}{{"nb-1s", nb.Add(-time.Second), false}, {"nb+1s", nb.Add(time.Second), true}, {"middle", nb.Add(time.Hour), true}, {"na-1s", na.Add(-time.Second), true}, {"na+1s", na.Add(time.Second), false}}
 	tampers := []string{"none", "none", "text", "attr", "sig-nested", "sigmethod-swapped", "repeated-id"}
-	n := c.N(3600, 60000)
+	n := c.N(9000, 120000)
 	for k := 0; k < n; k++ {
 		cs := c.Begin("cert-trust", k)
 		if cs == nil {
@@ -44,6 +44,9 @@ func runC02(c *mon.Ctx) {
 		sg := signers[(k/len(kinds))%len(signers)]
 		clk := clocks[(k/(len(kinds)*len(signers)))%len(clocks)]
 		tamper := tampers[r.IntN(len(tampers))]
+		if r.IntN(3) == 0 {
+			tamper = "none"
+		}
 		now := clk.t
 		w := NewWorld(now)
 		// store composition
@@ -95,7 +98,7 @@ func runC02(c *mon.Ctx) {
 			}
 			storeSize = len(store)
 			signCert, signKey, inStore = cur, cur.Key, true
-			mixedNoKI = r.IntN(2) == 0
+			mixedNoKI = r.IntN(4) != 0
 		case "issued-by-store-ca":
 			// the store holds a CA certificate (perhaps next to the IdP's own): trust is by identity with a store member,
 			// so a certificate that this CA issued to somebody else (a print server, another department's IdP) vouches for
@@ -189,7 +192,7 @@ func runC02(c *mon.Ctx) {
 		}
 		spec := randSigSpec(r, signCert, true, sg == "no-keyinfo" || sg == "named-not-carried" || mixedNoKI)
 		spec.Key = signKey
-		if spec.NoKeyInfo && (r.IntN(2) == 0 || sg == "named-not-carried") {
+		if spec.NoKeyInfo && ((r.IntN(2) == 0 && sg != "mixed-validity-store" && sg != "renewed-same-key") || sg == "named-not-carried") {
 			spec.NameOnly, spec.NameForms = true, 1+r.IntN(15) // the certificate is named (key identifier, issuer and serial, subject) but not carried
 		}
 		spec.NSCharRef = r.IntN(4) == 0 // the XML-DSig namespace URI spelled with a character reference everywhere
